@@ -11,7 +11,7 @@ use async_std::io::ReadExt;
 use rayon::prelude::*;
 use std::collections::BTreeMap;
 
-fn port_pair(cfg: Cfg, order: Order, alpha: Alphabet, init: Init, label_extra: &str) -> PairSpace {
+pub fn port_pair(cfg: Cfg, order: Order, alpha: Alphabet, init: Init, label_extra: &str) -> PairSpace {
     let ops = alpha.all_ops();
     let (c1, i1) = (cfg.clone(), init.clone());
     let (c2, i2) = (cfg.clone(), init.clone());
@@ -56,7 +56,7 @@ fn do_async_rstep(h: &mut Box<dyn vfs::async_vfs::SeekAndRead + Send + Unpin>, s
 }
 
 /// Reader scripts on async read handles against `Cursor` (the same oracle as the sync readers).
-fn async_reader_scripts(cfg: &Cfg, base: usize, content: &[u8], depth: usize, vio: &mut Vec<Violation>) -> u64 {
+pub fn async_reader_scripts(cfg: &Cfg, base: usize, content: &[u8], depth: usize, vio: &mut Vec<Violation>) -> u64 {
     let steps = reader_steps(content.len() as i64);
     let n = steps.len();
     let total = n.pow(depth as u32);
@@ -489,4 +489,44 @@ pub fn run_c15(ctx: &Ctx) -> i32 {
         json!({"poll_horizon": POLL_HORIZON}),
     );
     finish_counts(ctx, &info, cov, &["AsyncPhysicalFS only in lock-step outcome comparison (its Pendings come from async-std's blocking pool, which the harness does not own)", "timestamp setters are not part of the alphabet (AsyncPhysicalFS needs a tokio runtime for them)", "await points owned: entry of every AsyncFileSystem method and every item of a read_dir stream, at every level of the stack"], &vio, &counts)
+}
+
+/// C13: the async port under the same alphabets, every call under catch_unwind; only panics are
+/// returned (what the calls answer is C15's business).
+pub fn panic_sweep(ctx: &Ctx) -> (u64, Vec<Violation>) {
+    let quiet = Silence::start();
+    let ov = Cfg::Ov(vec![Cfg::Mem, Cfg::Mem]);
+    let lower: Init = vec![(1, vec![("/a".to_string(), Node::Dir), ("/a/a".to_string(), Node::File(b"l".to_vec())), ("/b".to_string(), Node::File(b"l".to_vec()))])];
+    let mut spaces = vec![
+        port_pair(Cfg::Mem, Order::Asc, alphabet(u4(), &[b"x"], 2, true), vec![], " (panic sweep)"),
+        port_pair(Cfg::alt(Cfg::Mem, "/Z"), Order::Asc, alphabet(u3(), &[b"x"], 1, true), vec![], " (panic sweep)"),
+        port_pair(ov.clone(), Order::Asc, alphabet(u3(), &[b"x"], 1, true), lower, " (panic sweep)"),
+        port_pair(Cfg::Mem, Order::Asc, alphabet(u_names_small(), &[b"x"], 1, true), vec![], " names (panic sweep)"),
+    ];
+    for s in &mut spaces {
+        s.typed_domain = false; // calls of the wrong type and on the root included
+    }
+    let lim = limits(ctx);
+    let mut n = 0u64;
+    let mut vio = vec![];
+    for s in spaces {
+        let (st, v) = bfs(&s, &lim);
+        n += st.transitions;
+        vio.extend(v);
+    }
+    for (cfg, base) in [(Cfg::Mem, 0), (ov.clone(), 1), (Cfg::alt(Cfg::Mem, "/Z"), 0)] {
+        for c in [&b""[..], &b"abcd"[..]] {
+            n += async_reader_scripts(&cfg, base, c, 3, &mut vio);
+        }
+    }
+    drop(quiet);
+    let v = vio
+        .into_iter()
+        .filter(|x| x.signature.contains("panic") || x.signature.contains("Panic"))
+        .map(|mut x| {
+            x.property = "C13".into();
+            x
+        })
+        .collect();
+    (n, v)
 }
